@@ -1,5 +1,7 @@
 package py
 
+import "math/big"
+
 // C13 — range: length, indexing, slicing, iteration, equality against a
 // reference list built from first principles. start/stop/step are symbolic
 // within a stated small window (the kernels divide and multiply; the window is
@@ -157,5 +159,45 @@ func VerifC13RangeNewAny() {
 	verifReach("called")
 	if c == 0 {
 		verifAssert(err != nil && c07ErrIs(err, ValueError), "zero step raises ValueError")
+	}
+}
+
+// One step of the range iterator from an arbitrary state - Index, Stop and
+// Step any int64 (Step != 0), so the ends of the word range are inside: the
+// iterator yields Index iff Index lies before Stop in the direction of Step,
+// and the following call yields exactly Index + Step (computed without
+// wrapping) iff that still lies before Stop; otherwise the iterator is
+// exhausted - it never wraps around into the range again.
+//
+//verif:property C13
+//verif:expect called
+func VerifC13RangeIterStep() {
+	for _, t := range []*Type{BaseException, ExceptionType, StopIteration} {
+		_ = t.Ready()
+	}
+	index, stop, step := verifInt64("index"), verifInt64("stop"), verifInt64("step")
+	verifAssume(step != 0)
+	it := &RangeIterator{Range: Range{Start: Int(index), Stop: Int(stop), Step: Int(step)}, Index: Int(index)}
+	before := func(x *big.Int) bool {
+		if step > 0 {
+			return x.Cmp(big.NewInt(stop)) < 0
+		}
+		return x.Cmp(big.NewInt(stop)) > 0
+	}
+	cur := big.NewInt(index)
+	for call := 0; call < 3; call++ {
+		got, err := it.M__next__()
+		verifReach("called")
+		if !before(cur) {
+			verifAssert(err != nil && IsException(StopIteration, err), "past the stop value the iterator is exhausted")
+			// and stays so
+			_, err = it.M__next__()
+			verifAssert(err != nil && IsException(StopIteration, err), "an exhausted range iterator stays exhausted")
+			return
+		}
+		verifAssert(err == nil, "a value before the stop value is yielded")
+		g, ok := got.(Int)
+		verifAssert(ok && big.NewInt(int64(g)).Cmp(cur) == 0, "the iterator yields start + i*step exactly")
+		cur = new(big.Int).Add(cur, big.NewInt(step))
 	}
 }
